@@ -7,7 +7,11 @@ ENGINES = [
     {"name": "sa", "path": "/verif/sa", "serves_properties": ["C%02d" % i for i in range(1, 21)],
      "kind_free_text": "repository-specific static analysis over Python ast: StopIteration-escape (PEP 479), "
                        "tee/linear-use accounting, pull/yield typestate, template-frame reconstruction of exec'd code, "
-                       "rational normal forms, sibling/consistency rules, lock-order and wake-up analysis"},
+                       "rational normal forms, sibling/consistency rules, lock-order and wake-up analysis, decision "
+                       "tables over representative operand kinds, byte-decoder interpretation; the functions are read "
+                       "through a normalised view (alpha-renaming towards the confirmed tree, adoption of units proved "
+                       "equivalent, helper inlining, stable local aliases written back under a package-wide "
+                       "who-may-write table) so that behaviour-preserving refactorings do not change the verdict"},
 ]
 
 CHECKS = {
